@@ -286,6 +286,8 @@ func checkC02(c *Check) {
 
 	// ---------- 7-10: reader, fresh bases, no dropped step, no remembered state ----------
 	checkC02Reader(c)
+	checkChunkedReader(c)
+	checkConstFormats(c)
 }
 
 func sortedHelpers(m map[*ssa.Function]*helperInfo) []*helperInfo {
